@@ -122,3 +122,114 @@ def install_local_findings(prop):
 
     load._xv_local = True
     common.load_findings = load
+
+
+# ----------------------------------------------------------------- check skeleton shared by c12.py / c13.py
+
+
+def feature_key(st):
+    return "+".join(k for k in ("meta", "pre", "init", "taskout", "data", "paths", "tags", "cyclic") if st.get(k)) or "plain"
+
+
+def make_cases(ctx, rng, kind, nlibs, per, tag):
+    """(libs, cases): `kind` in {"c12", "c13"}"""
+    libs, cases = [], []
+    for li in range(nlibs):
+        lib = gen_lib(rng, f"{tag}_{ctx.seed}_{li}")
+        libs.append(lib)
+        for _ in range(per):
+            g = gen_graph(rng, lib, max_nodes=rng.choice([2, 4, 6, 9, 12]))
+            c = {"lib": li, "kind": kind, "graph": g, "root_is_task": kind_of(lib, g["nodes"][0]["cls"]) == "task"}
+            if kind == "c12":
+                c["value"] = gen_value(rng, g) if rng.random() < 0.5 else None
+                c["save"] = rng.random() < 0.5
+                c["job"] = rng.random() < 0.6
+            else:
+                if rng.random() < 0.35 and len(g["nodes"]) > 1:
+                    c["first"] = rng.randrange(1, len(g["nodes"]))
+            cases.append(c)
+    return libs, cases
+
+
+def make_proc_cases(ctx, rng, which, nlibs, per, tag):
+    libs, cases = [], []
+    for li in range(nlibs):
+        lib = gen_lib(rng, f"{tag}_{ctx.seed}_{li}")
+        libs.append(lib)
+        n = tries = 0
+        while n < per and tries < per * 30:
+            tries += 1
+            g = gen_graph(rng, lib, max_nodes=rng.choice([3, 6, 9]), cycles=False, task_links=False)
+            if kind_of(lib, g["nodes"][0]["cls"]) != "task" or identlib.has_cycle(g):
+                continue
+            n += 1
+            cases.append({"lib": li, "kind": "proc", "graph": g, "monitors": which, "root_is_task": True})
+    return libs, cases
+
+
+def case_desc(libs, c):
+    d = {k: v for k, v in c.items() if k != "lib"}
+    d["lib"] = libs[c["lib"]]
+    return d
+
+
+def evaluate(ctx, libs, cases, recs, what, with_model=True):
+    """monitors -> ctx.monitor_fail, evidence counters, then the comparison with the Lean model"""
+    errs = 0
+    for c, r in zip(cases, recs):
+        st = graph_stats(libs[c["lib"]], c["graph"])
+        ctx.count("nodes", min(st["nodes"], 15))
+        ctx.count("shared", min(st["shared"], 3))
+        ctx.count("features", feature_key(st))
+        ctx.count("kind", c["kind"] + (":" + c.get("monitors", "") if c["kind"] == "proc" else ""))
+        if r["error"]:
+            errs += 1
+            ctx.count("case_errors", r["error"][:80])
+            continue
+        for k, v in r.get("stats", {}).items():
+            if isinstance(v, (bool, str)):
+                ctx.count("stat:" + k, v)
+        small = {"lib": libs[c["lib"]]["pkg"], **{k: v for k, v in c.items() if k != "lib"}}
+        ctx.case(small, st["refs"] >= 1)
+        for m in r["monitors"]:
+            ctx.count("monitor", m["key"])
+            ctx.monitor_fail(m["key"], m["what"], {"case": case_desc(libs, c), "detail": m.get("detail")})
+    if errs > max(3, len(cases) // 10):
+        first = next(r for r in recs if r["error"])
+        raise RuntimeError(f"{errs}/{len(cases)} generated cases could not be run: {first['error']}\n{first.get('trace', '')}")
+    if not with_model:
+        return
+    good = [(c, r) for c, r in zip(cases, recs) if not r["error"] and r["lines"]]
+    if not good:
+        return
+    try:
+        mouts = model_outputs(ctx, [r for _, r in good])
+    except Exception as e:
+        ctx.disagree({"driver": DRIVER}, None, None, f"model driver failed: {e}")
+        return
+    for (c, r), mo in zip(good, mouts):
+        ctx.traces_validated += 1
+        n = compare(ctx, {"lib": libs[c["lib"]]["pkg"], "graph": c["graph"], "root": c.get("root", 0), "value": c.get("value")}, r, mo, what)
+        ctx.count("model_lines_compared", "total", n)
+        for line in r["lines"]:
+            ctx.count("ops", line["op"])
+
+
+def replay_cases(ctx, obj, kinds):
+    """re-run the failing inputs recorded in a replay file (implementation-only monitors)"""
+    n = 0
+    for f in obj.get("failures", []):
+        c = (f.get("case") or {}).get("case")
+        if not c or c.get("kind") not in kinds:
+            continue
+        lib = c["lib"]
+        case = dict(c)
+        case["lib"] = 0
+        rec = run(ctx, [lib], [case], shards=1)[0]
+        n += 1
+        if rec["error"]:
+            ctx.notes.append(f"replayed case raised {rec['error']}")
+            continue
+        for m in rec["monitors"]:
+            ctx.monitor_fail(m["key"], m["what"], {"case": c, "detail": m.get("detail")})
+    return n
